@@ -80,7 +80,7 @@ def main():
     qi = img.read()
     for d, x in flips(qi, 0, 4):
         cases.append(("qcow2.magic", d, lambda x=x: q.QCow2(io.BytesIO(x))))
-    for ver in (0, 1, 4, 5, 255, 0x10003):
+    for ver in (0, 1, 4, 5, 255, 0x10003, 0x10002, 0x80000003, 0x0300, 0x03000000):  # also values whose low byte / half word is a supported version
         cases.append(("qcow2.version", f"version={ver}", lambda x=setbytes(qi, 4, struct.pack(">I", ver)): q.QCow2(io.BytesIO(x))))
     for cb in (0, 1, 8, 22, 31, 32, 64, 0xFFFFFFFF):
         cases.append(("qcow2.cluster_bits", f"cluster_bits={cb}", lambda x=setbytes(qi, 20, struct.pack(">I", cb)): q.QCow2(io.BytesIO(x))))
@@ -103,7 +103,7 @@ def main():
         act = 0 if s1 > s2 else 0x1000
         for d, x in flips(hv, act, 4):
             cases.append((f"hyperv.header.signature[{name}]", d, lambda x=x: HyperVFile(io.BytesIO(x))))
-        for ver in (0, 0x300, 0x401, 0x500):
+        for ver in (0, 0x300, 0x401, 0x500, 0x10400, 0x80000400, 0x4):
             cases.append((f"hyperv.version[{name}]", f"version={ver:#x}", lambda x=setbytes(hv, act + 10, struct.pack("<I", ver)): HyperVFile(io.BytesIO(x))))
         for d, x in flips(hv, 0x2000, 4):
             cases.append((f"hyperv.object_table.signature[{name}]", d, lambda x=x: HyperVFile(io.BytesIO(x))))
@@ -127,9 +127,9 @@ def main():
         e = open(ve, "rb").read()
         for d, x in flips(e, 0, 21):
             cases.append(("envelope.magic", d, lambda x=x: Envelope(io.BytesIO(x))))
-        for ver in (0, 1, 3, 0x100):
+        for ver in (0, 1, 3, 0x100, 0x10002, 0x80000002, 0x02000000, 0x0202):
             cases.append(("envelope.version", f"version={ver}", lambda x=setbytes(e, 508, struct.pack("<I", ver)): Envelope(io.BytesIO(x))))
-        for ver in (0, 2, 7):
+        for ver in (0, 2, 7, 0x10001, 0x80000001):
             cases.append(("envelope.footer_version", f"footer version={ver}", lambda x=setbytes(e, len(e) - 4, struct.pack("<I", ver)): Envelope(io.BytesIO(x))))
         idx = e.find(b"AES-256-GCM")
         if idx > 0:
